@@ -787,15 +787,15 @@ func c10Quote(c *Ctx, exprFmt *ssa.Function, kindFmt map[string]*ssa.Function) {
 		} else {
 			want := map[string]bool{"<Column>=<q:Value>": true, "<Column>=$<n:Placeholder>": true}
 			got := map[string]bool{}
-			bad := ""
+			bad, anyBad := "", false // (a path that writes nothing renders as "", which is a wrong output too)
 			for _, sq := range seqs {
 				sq = strings.ReplaceAll(sq, `"<esc:Value>"`, "<q:Value>")
 				got[sq] = true
 				if !want[sq] {
-					bad = sq
+					bad, anyBad = sq, true
 				}
 			}
-			c.r.check(bad == "" && len(got) == 2, rule, safeFname(f)+": output", "writes `column = \"value\"` (value through the quoting function) or `column = $n`",
+			c.r.check(!anyBad && len(got) == 2, rule, safeFname(f)+": output", "writes `column = \"value\"` (value through the quoting function) or `column = $n`",
 				fmt.Sprintf("the comparison formatter writes %q on some path (expected column, '=', then either the value through the quoting function or '$' and the decimal placeholder number): the text does not parse back to the same comparison", bad), c.w.pos(f.Pos()))
 		}
 	} else {
@@ -851,6 +851,25 @@ func (fr *outFrame) active(g *ssa.Function) bool {
 	return false
 }
 
+// sinkHolder: t is a pointer to a struct one of whose fields is a builder/buffer held by value (a formatter object:
+// `type formatter struct{ out strings.Builder }`), whose address &f.out is a text sink.
+func sinkHolder(t types.Type) bool {
+	p, ok := t.Underlying().(*types.Pointer)
+	if !ok {
+		return false
+	}
+	st, ok := p.Elem().Underlying().(*types.Struct)
+	if !ok {
+		return false
+	}
+	for i := 0; i < st.NumFields(); i++ {
+		if isTextSink(types.NewPointer(st.Field(i).Type())) {
+			return true
+		}
+	}
+	return false
+}
+
 // isTextSink: the static type of v is one the formatter writes text to.
 func isTextSink(t types.Type) bool {
 	switch typeString(t) {
@@ -876,6 +895,7 @@ func outputSeqs(c *Ctx, fn *ssa.Function, skip func(*ssa.Function) bool, withRes
 	var out []string
 	why := ""
 	plainVerb := func(verb string) bool { return verb == "" || verb == "s" || verb == "v" }
+	var resolve func(v ssa.Value, fr *outFrame) (ssa.Value, *outFrame)
 	var tok func(v ssa.Value, fr *outFrame, verb string) string
 	tok = func(v ssa.Value, fr *outFrame, verb string) string {
 		for n := 0; n < 8; n++ {
@@ -970,8 +990,10 @@ func outputSeqs(c *Ctx, fn *ssa.Function, skip func(*ssa.Function) bool, withRes
 				}
 				return wrap("<replace:" + inner + ">")
 			case "strings.Join":
-				f := path(x.Call.Args[0]).lastField()
-				if gc, isCall := x.Call.Args[0].(*ssa.Call); isCall && f == nil {
+				// (the list may reach a helper as a parameter: f.groupBy(q.GroupBy) → strings.Join(fields, ", "))
+				list, _ := resolve(x.Call.Args[0], fr)
+				f := path(list).lastField()
+				if gc, isCall := list.(*ssa.Call); isCall && f == nil {
 					_, f = pbGetterField(c, gc) // strings.Join(q.GetGroupBy(), ", ")
 				}
 				if f != nil {
@@ -1005,12 +1027,10 @@ func outputSeqs(c *Ctx, fn *ssa.Function, skip func(*ssa.Function) bool, withRes
 		}
 		return "<?>"
 	}
-	// isOut: v is the builder whose contents are the function's output — the root function's builder parameter or
-	// local builder (also as a field of a local struct), possibly handed down through helper parameters. A builder
-	// local to a helper is not.
-	var isOut func(v ssa.Value, fr *outFrame) bool
-	isOut = func(v ssa.Value, fr *outFrame) bool {
-		for n := 0; n < 8; n++ {
+	// resolve follows v to where it was made: through interface/type conversions, the phi choices of the path, and — for
+	// a parameter of a helper rendered in place — to the call's argument in the caller's activation.
+	resolve = func(v ssa.Value, fr *outFrame) (ssa.Value, *outFrame) {
+		for n := 0; n < 16; n++ {
 			switch x := v.(type) {
 			case *ssa.MakeInterface:
 				v = x.X
@@ -1026,38 +1046,81 @@ func outputSeqs(c *Ctx, fn *ssa.Function, skip func(*ssa.Function) bool, withRes
 					v = r
 					continue
 				}
+			case *ssa.Parameter:
+				if a, ok := fr.args[x]; ok && fr.parent != nil {
+					v, fr = a, fr.parent
+					continue
+				}
 			}
 			break
 		}
+		return v, fr
+	}
+	// handed: the root function was given its output (a builder parameter, or a formatter object that holds the
+	// builder); a builder it creates itself is then a scratch buffer, not the output.
+	handed := func(root *ssa.Function) bool {
+		for _, p := range root.Params {
+			if isTextSink(p.Type()) || sinkHolder(p.Type()) {
+				return true
+			}
+		}
+		return false
+	}
+	// isCarrier: v is the object that holds the output builder in a field (`type formatter struct{ out strings.Builder }`):
+	// the root function's own receiver/parameter of such a type, or its local variable of such a type (declared, or obtained
+	// from a constructor that only allocates it) — possibly handed
+	// down as the receiver or an argument of helpers (f.groupBy(…), f.operand(…)). A formatter object local to a helper
+	// is not.
+	isCarrier := func(v ssa.Value, fr *outFrame) bool {
+		v, fr = resolve(v, fr)
+		if fr.parent != nil || !sinkHolder(v.Type()) {
+			return false
+		}
 		switch x := v.(type) {
 		case *ssa.Parameter:
-			if a, ok := fr.args[x]; ok && fr.parent != nil {
-				return isOut(a, fr.parent)
+			return true
+		case *ssa.Alloc:
+			return x.Parent() == fr.fn && !handed(fr.fn)
+		case *ssa.Call:
+			// f := newFormatter(): a constructor of the parser package that only allocates the object it returns (no
+			// call in its body, so nothing is written into the builder before the root function gets it)
+			_, g, vals, ok := resultOrigins(c.w, x)
+			if !ok || c.w.pkgPathOf(g) != pkgParser || handed(fr.fn) {
+				return false
 			}
-			return fr.parent == nil && isTextSink(x.Type())
+			calls := false
+			allInstrs(g, func(i ssa.Instruction) {
+				if _, isCall := i.(ssa.CallInstruction); isCall {
+					calls = true
+				}
+			})
+			for _, rv := range vals {
+				if al, isAlloc := rv.(*ssa.Alloc); !isAlloc || al.Parent() != g {
+					return false
+				}
+			}
+			return !calls
+		}
+		return false
+	}
+	// isOut: v is the builder whose contents are the function's output — the root function's builder parameter or
+	// local builder, or the builder field of the object that carries the output (isCarrier), possibly handed down
+	// through helper parameters and receivers. A builder local to a helper is not.
+	isOut := func(v ssa.Value, fr *outFrame) bool {
+		v, fr = resolve(v, fr)
+		if !isTextSink(v.Type()) {
+			return false
+		}
+		switch x := v.(type) {
+		case *ssa.Parameter:
+			return fr.parent == nil
 		case *ssa.Alloc:
 			// the root function's own builder (QueryToString) — unless it was given one, which then is the output
-			if fr.parent != nil || !isTextSink(x.Type()) {
-				return false
-			}
-			for _, p := range fr.fn.Params {
-				if isTextSink(p.Type()) {
-					return false
-				}
-			}
-			return true
+			return fr.parent == nil && !handed(fr.fn)
 		case *ssa.FieldAddr:
-			// the root function's builder kept in a local struct (var w exprWriter; …; return w.b.String())
-			al, ok := x.X.(*ssa.Alloc)
-			if !ok || fr.parent != nil || !isTextSink(x.Type()) {
-				return false
-			}
-			for _, p := range fr.fn.Params {
-				if isTextSink(p.Type()) {
-					return false
-				}
-			}
-			return al.Parent() == fr.fn
+			// the builder kept in a struct: &f.out with f the output's carrier (var w exprWriter; …; return w.b.String() in
+			// the root function, or f the receiver of a formatter method, in the root function or a helper it calls)
+			return isCarrier(x.X, fr)
 		}
 		return false
 	}
@@ -1130,9 +1193,10 @@ func outputSeqs(c *Ctx, fn *ssa.Function, skip func(*ssa.Function) bool, withRes
 				if g == nil || c.w.pkgPathOf(g) != pkgParser || g.Blocks == nil || (skip != nil && skip(g)) {
 					continue
 				}
+				// (as an argument, or inside the formatter object the helper is a method of / is passed)
 				given := false
 				for _, a := range args {
-					if isTextSink(a.Type()) && isOut(a, fr) {
+					if isOut(a, fr) || isCarrier(a, fr) {
 						given = true
 					}
 				}
